@@ -83,7 +83,7 @@ func NewGen(r *rand.Rand, p Profile) *Gen {
 		p.MaxCases = 5
 	}
 	if len(p.TextPool) == 0 {
-		p.TextPool = []string{"Hello", "Bye now", "Hello", "A b c", "Prize!", "x", "Pok\uFFFDmon é"}
+		p.TextPool = []string{"Hello", "Bye now", "Hello", "A b c", "Prize!", "x", "Pok\uFFFDmon é", "三上 不čĠ"}
 	}
 	g := &Gen{R: r, P: p, Prog: &Program{AutoVars: map[string]AutoVar{}, Switches: map[string]string{}}, VarCands: map[int]bool{0: true, 1: true}, prevLeaves: map[string][]*Leaf{}}
 	return g
@@ -98,7 +98,7 @@ func (g *Gen) Name(prefix string) string {
 	if !g.P.ASCIINames && g.R.IntN(12) == 0 {
 		// identifiers may contain any Unicode letter: scripts, labels, texts, movements, marts, map
 		// scripts, commands, flags and vars alike
-		return fmt.Sprintf("%s%s%d%c", prefix, []string{"É", "ポ", "ß", "Ж"}[g.R.IntN(4)], g.n, suffixLetters[g.R.IntN(len(suffixLetters))])
+		return fmt.Sprintf("%s%s%d%c", prefix, []string{"É", "ポ", "ß", "Ж", "č", "三", "Ġ", "Ż"}[g.R.IntN(8)], g.n, suffixLetters[g.R.IntN(len(suffixLetters))])
 	}
 	return fmt.Sprintf("%s%d%c", prefix, g.n, suffixLetters[g.R.IntN(len(suffixLetters))])
 }
